@@ -4,7 +4,9 @@
    expression metacharacters); an unknown is ctx . v . ctx' (optionally . v2 . ctx'') with context
    tokens from CTok, which never occur in a value, so the planted copies are the only occurrences.
    Positions are in tokens here; the driver turns them into byte offsets of its concretisation
-   (tokens joined by single blanks) and the recorded results are validated by TraceV1:
+   (tokens joined by single blanks; or, for the character alphabet of V1ClassifyChars.cfg -- letters and the blank,
+   the blank also a context character -- simply concatenated, so that values have blanks at their edges and copies
+   start and end inside words of the unknown) and the recorded results are validated by TraceV1:
        every plant is reported with Confidence 1.0 and exactly its Offset/Extent; AddValue never panics;
        NearestMatch(value) returns a key holding that value at 1.0.                                   *)
 EXTENDS Integers, Sequences, FiniteSets, TLC, Json
@@ -24,15 +26,22 @@ AddVal == /\ phase = "vals" /\ Len(vals) < 2
           /\ \E v \in Values : /\ \A i \in 1..Len(vals) : ~IsSubseq(v, vals[i]) /\ ~IsSubseq(vals[i], v)   \* none occurs inside another
                                /\ vals' = Append(vals, v)
           /\ UNCHANGED <<unknown, plants, phase>>
+(* the planted copies are the only occurrences of known values in u (for the token alphabets this holds by construction: context
+   tokens never occur in a value; for the character alphabet, where a blank is both, it is what restricts the choice) *)
+OnlyPlantedIn(u, pl) ==
+   \A k \in 1..Len(vals) : \A i \in 0..(Len(u) - Len(vals[k])) :
+      SubSeq(u, i + 1, i + Len(vals[k])) = vals[k] => \E j \in 1..Len(pl) : pl[j].k = k /\ pl[j].at = i
 Build == /\ phase = "vals" /\ Len(vals) >= 1
          /\ \E c1 \in Ctxs, c2 \in Ctxs, k \in 1..Len(vals) :
-               /\ unknown' = c1 \o vals[k] \o c2
-               /\ plants' = <<[k |-> k, at |-> Len(c1), n |-> Len(vals[k])]>>
+               LET u == c1 \o vals[k] \o c2
+                   pl == <<[k |-> k, at |-> Len(c1), n |-> Len(vals[k])]>>
+               IN OnlyPlantedIn(u, pl) /\ unknown' = u /\ plants' = pl
          /\ phase' = "one" /\ UNCHANGED vals
 Second == /\ phase = "one"
           /\ \E c3 \in Ctxs \ {<<>>}, k \in 1..Len(vals) :      \* a second copy, separated by at least one context token
-                /\ unknown' = unknown \o c3 \o vals[k]
-                /\ plants' = Append(plants, [k |-> k, at |-> Len(unknown) + Len(c3), n |-> Len(vals[k])])
+                LET u == unknown \o c3 \o vals[k]
+                    pl == Append(plants, [k |-> k, at |-> Len(unknown) + Len(c3), n |-> Len(vals[k])])
+                IN OnlyPlantedIn(u, pl) /\ unknown' = u /\ plants' = pl
           /\ phase' = "two" /\ UNCHANGED vals
 Emit == /\ phase \in {"one", "two"}
         /\ PrintT(ToJson([vals |-> vals, u |-> unknown, p |-> plants]))
